@@ -214,6 +214,14 @@ def history(ctx, rng, desc, hid):
                     if (cm.rtr_allowed, cm.enabled, cm.cob_id) != (allowed, enabled, other_cob + 0x10):
                         ctx.violation("configuration-read-flags", f"COB-ID word {od_c[0x1400][1].value:#x} read as cob {cm.cob_id:#x} enabled={cm.enabled} rtr_allowed={cm.rtr_allowed}", case())
                     cm.rtr_allowed, cm.enabled = cm.rtr_allowed, cm.enabled
+                    if enabled:
+                        # a map that learnt its configuration by read() still has the callbacks registered before
+                        del cb_log[:]
+                        pnet.send_message(other_cob + 0x10, bytes(rng.getrandbits(8) for _ in range(4)))
+                        if sorted(cb_log) != [("C", 0, True), ("C", 1, True)]:
+                            ctx.violation("callbacks-mismatch:after-read", f"a frame for map C (re-configured by read()) invoked {sorted(cb_log)}, "
+                                          "expected its two callbacks once each", case())
+                        del cb_log[:]
                     want_rtr = allowed and enabled
                     ops.append(("remote_request-after-read", name, enabled, allowed))
                     mark = len(bus.log)
@@ -385,6 +393,32 @@ def run_waits(ctx, desc):
             ctx.inconc(f"wait_for_reception after stale: {status}", case)
         elif status != "returned" or val is not None:
             ctx.violation("wait-for-reception-satisfied-by-earlier-frame", f"a frame arrived before the wait and nothing after; wait_for_reception returned {val!r}", case)
+        # an application callback that raises must not keep the waiting reader from being woken
+        def bad_callback(m):
+            if armed["on"]:
+                raise RuntimeError("application callback failed")
+        armed = {"on": False}
+        cm.add_callback(bad_callback)
+        sentb = {}
+
+        def deliver_b():
+            armed["on"] = True
+            pm[0].raw = 1
+            mark = len(bus.log)
+            pm.transmit()
+            sentb["ts"] = [f for f in list(bus.log)[mark:] if f.src == "producer"][0].ts
+        status, val = waits.run_waiter(lambda: cm.wait_for_reception(40), cond, deliver_b)
+        bus.quiesce()
+        armed["on"] = False
+        cm.callbacks.remove(bad_callback)
+        ctx.count("wait_cases")
+        ctx.case(("wait-reception-raising-callback",), nontrivial=True)
+        if status in ("hung", "never-waited"):
+            ctx.inconc(f"wait_for_reception with a raising callback: {status}", case)
+        elif status == "not-woken":
+            ctx.violation("waiter-not-woken:raising-callback", "the frame was received (a callback of the map raised) but the waiting reader was not woken", case)
+        elif status != "returned" or val != sentb.get("ts"):
+            ctx.violation("wait-for-reception", f"with a raising callback wait_for_reception ended {status} with {val!r}, frame timestamp {sentb.get('ts')!r}", case)
         # interfaces without hardware timestamps (0.0) or with a coarse clock deliver consecutive frames with the same
         # timestamp: the frame that arrives during the wait is still "a reception" and its timestamp is returned
         for same_ts in (0.0, 1234.5):
